@@ -105,6 +105,15 @@ func verifDir() string {
 	return "/verif"
 }
 
+// evidenceDir is /verif/evidence unless the check is pointed at a scratch copy of the repository
+// (mutant validation), whose results must never overwrite the evidence of the real tree.
+func evidenceDir() string {
+	if d := os.Getenv("VERIF_EVIDENCE_DIR"); d != "" {
+		return d
+	}
+	return filepath.Join(verifDir(), "evidence")
+}
+
 func loadKnown(prop string) []KnownFinding {
 	b, err := os.ReadFile(filepath.Join(verifDir(), "known_findings.json"))
 	if err != nil {
@@ -313,7 +322,7 @@ func (r *Run) violationAt(fam string, idx int, sig, what string, detail interfac
 	if len(r.viol) > 40 {
 		return // enough witnesses written
 	}
-	dir := filepath.Join(verifDir(), "evidence", "replay")
+	dir := filepath.Join(evidenceDir(), "replay")
 	os.MkdirAll(dir, 0o755)
 	name := fmt.Sprintf("%s-%s-%016x.json", r.Prop, sanitizeName(sig), hashStr(fmt.Sprintf("%s/%s/%d/%d", sig, fam, idx, r.Seed)))
 	path := filepath.Join(dir, name)
@@ -511,7 +520,7 @@ func (r *Run) Finish() {
 	r.mu.Unlock()
 
 	if r.ReplayOf == nil {
-		dir := filepath.Join(verifDir(), "evidence")
+		dir := evidenceDir()
 		os.MkdirAll(dir, 0o755)
 		b, err := json.MarshalIndent(ev, "", " ")
 		if err != nil {
